@@ -206,7 +206,8 @@ def run_property(prop, tier, repo_root):
     repo = Repo(repo_root)
     obligations, functions, axioms = [], [], set()
     executed = set()
-    checks = list(mod.CHECKS) + (list(getattr(mod, 'THOROUGH_CHECKS', [])) if tier == 'thorough' else [])
+    checks = list(mod.CHECKS) + (list(mod.extra_checks()) if hasattr(mod, "extra_checks") else []) \
+        + (list(getattr(mod, 'THOROUGH_CHECKS', [])) if tier == 'thorough' else [])
     for chk in checks:
         recs, funcs, H = run_check(repo, chk, tier, prop)
         obligations.extend(recs)
